@@ -71,6 +71,7 @@ SPEC = PropSpec(
     title="Framing terminates on every finite source and yields only complete packets",
     check=check,
     floors={"R10.1": 2, "R10.2": 1, "R10.3": 4, "R10.4": 2, "R10.6": 1, "R10.t": 20, "R10.g": 8, "R10.5": 4},
+    fallback={r: ("R10.t", "R10.g") for r in ("R10.roles", "R10.1", "R10.2", "R10.3", "R10.4", "R10.6")},
     explanation=("R10.1 must-facts over the CFG of ccsds_generator: on every path - including the paths on which the "
                  "reader returned nothing - `len(B)-P >= 6` holds at the header slice and `len(B)-P >= N` at the packet "
                  "slice; a violation is reported with the witness path refill-break -> slice -> yield. R10.2 every "
